@@ -418,13 +418,28 @@ def region_ok(r):
 def returns(body):
     """Definition sites of the return place _0: [(bb, normalised term)]"""
     out = []
-    for (b, i, kind, payload) in body.defs().get(0, []):
-        if body.is_cleanup(b):
+    seen = set()
+    work = [0]
+    while work:
+        l = work.pop()
+        if l in seen:
             continue
-        if kind == "call":
-            out.append((b, norm(body.call_term(b))))
-        else:
+        seen.add(l)
+        for (b, i, kind, payload) in body.defs().get(l, []):
+            if body.is_cleanup(b):
+                continue
+            if kind == "call":
+                out.append((b, norm(body.call_term(b))))
+                continue
+            # `_0 = move _r` where _r collects the value on several paths (an inlined callee's return place, a version
+            # join): the returns are the definitions of _r, each at its own block
+            if payload["r"] == "use" and payload["op"]["o"] in ("copy", "move") and not payload["op"]["place"]["proj"]:
+                src = payload["op"]["place"]["l"]
+                if src > body.arg_count and src not in body.mut_locals() and len([d for d in body.defs().get(src, []) if not body.is_cleanup(d[0])]) >= 1:
+                    work.append(src)
+                    continue
             out.append((b, norm(body._rv_term(payload))))
+    out.sort(key=lambda x: x[0])
     return out
 
 
@@ -827,13 +842,24 @@ def edge_triggers(body, bb, depth=0):
             out.append((p, canon_atom(atom_of(eg[0], eg[1]))))
         else:
             t = body.term(p)
-            if t["t"] == "goto" and not body.blocks[p]["stmts"] and depth < 4:
+            if t["t"] == "goto" and _only_copies(body, p) and depth < 6:
                 out.extend(edge_triggers(body, p, depth + 1))
             elif t["t"] in ("call", "drop") and depth < 4 and not _defines_anything_relevant(body, p):
                 out.extend(edge_triggers(body, p, depth + 1))
             else:
                 out.append((p, ("fallthrough",)))
     return out
+
+
+def _only_copies(body, p):
+    """a block that only moves values / stores constants (no computation): transparent for 'which test led here'"""
+    for st in body.blocks[p]["stmts"]:
+        if st.get("s") == "assign" and st["rv"]["r"] == "use":
+            continue
+        if st.get("s") == "other":
+            continue
+        return False
+    return True
 
 
 def _defines_anything_relevant(body, p):
